@@ -104,7 +104,8 @@ fn stages(sh: &mut x::shell::Shell, line: &str, cheap_only: bool) -> Value {
         });
         stage!("is_shell_altering_command", { x::tools::is_shell_altering_command(line); });
     }
-    json!({"failed": failed})
+    let complete = catch_unwind(AssertUnwindSafe(|| x::parser_line::parse_line(line).is_complete)).unwrap_or(false);
+    json!({"failed": failed, "complete": complete})
 }
 
 
